@@ -130,8 +130,9 @@ def parse_terse(out):
 
 
 def kani_cmd(harness_names, jobs, extra=()):
-    cmd = ["cargo", "kani", "-Z", "function-contracts", "-Z", "stubbing", "--output-format=terse",
-           "-j", str(jobs)]
+    cmd = ["cargo", "kani", "-Z", "function-contracts", "-Z", "stubbing", "-Z", "unstable-options",
+           "--harness-timeout", os.environ.get("VERIF_KANI_HARNESS_TIMEOUT", "900s"),
+           "--output-format=terse", "-j", str(jobs)]
     for h in harness_names:
         cmd += ["--harness", h]
     cmd += list(extra)
@@ -185,17 +186,23 @@ def run_for_property(prop, tier, scratch, seed=0, only=None):
             parsed = parse_terse(pr.stdout)
             for h in todo:
                 hit = [v for k, v in parsed.items() if k.split("::")[-1] == h["name"]]
-                if not hit or "ok" not in hit[0]:
-                    if "out of memory" in txt.lower() or "Killed" in txt:
-                        raise Inconclusive("kani ran out of memory on %s" % h["name"])
-                    raise Inconclusive("no result for harness %s: %s" % (h["name"], txt[-1500:]))
-                r = hit[0]
                 rec = {
                     "id": "kani:%s" % h["name"], "engine": "kani/cbmc", "kind": h.get("kind", "proved"),
-                    "bound": h.get("bound"), "ok": r["ok"], "time_s": r.get("time_s", 0.0),
+                    "bound": h.get("bound"), "ok": False, "time_s": 0.0,
                     "function": "; ".join(h.get("functions", [])), "file": h.get("file", ""),
                     "props": h["props"], "harness": h["name"],
                 }
+                if not hit or "ok" not in hit[0]:
+                    why = "timed out or produced no result"
+                    if "out of memory" in txt.lower():
+                        why = "ran out of memory"
+                    rec["inconclusive"] = "harness %s %s (per-harness limit %s)" % (
+                        h["name"], why, os.environ.get("VERIF_KANI_HARNESS_TIMEOUT", "900s"))
+                    out.append(rec)
+                    continue
+                r = hit[0]
+                rec["ok"] = r["ok"]
+                rec["time_s"] = r.get("time_s", 0.0)
                 if not r["ok"]:
                     fc = [ln for ln in r["text"].split("\n") if "Failed Checks" in ln or ln.strip().startswith("File:")]
                     rec["failures"] = [{"msg": "; ".join(x.strip() for x in fc)[:600] or "verification failed",
@@ -204,8 +211,11 @@ def run_for_property(prop, tier, scratch, seed=0, only=None):
                 # vacuity: every cover must be satisfiable
                 mc = re.search(r"\*\* (\d+) of (\d+) cover properties satisfied", r["text"])
                 if mc and mc.group(1) != mc.group(2) and r["ok"]:
-                    raise Inconclusive("harness %s: %s of %s cover properties satisfied (vacuous assumption?)"
-                                       % (h["name"], mc.group(1), mc.group(2)))
+                    rec["ok"] = False
+                    rec["inconclusive"] = ("harness %s: %s of %s cover properties satisfied (vacuous assumption?)"
+                                           % (h["name"], mc.group(1), mc.group(2)))
+                    out.append(rec)
+                    continue
                 rec["cached"] = False
                 os.makedirs(os.path.dirname(h["_cache"]), exist_ok=True)
                 tmp = h["_cache"] + ".%d.tmp" % os.getpid()
@@ -270,8 +280,10 @@ if __name__ == "__main__":
     try:
         r = run_for_property(prop, tier, sc, only=only)
         for h in r["harnesses"]:
-            print("%-5s %7.1fs %s %s" % ("ok" if h["ok"] else "FAIL", h.get("time_s", 0), h["id"], "(cached)" if h.get("cached") else ""))
-            if not h["ok"]:
+            print("%-5s %7.1fs %s %s" % ("ok" if h["ok"] else ("INCON" if h.get("inconclusive") else "FAIL"), h.get("time_s", 0), h["id"], "(cached)" if h.get("cached") else ""))
+            if h.get("inconclusive"):
+                print("   ", h["inconclusive"])
+            elif not h["ok"]:
                 print(h["failures"][0]["msg"])
                 print(h["failures"][0]["text"][-1500:])
         print("wall %.1f" % r["wall_s"])
